@@ -187,6 +187,17 @@ def rule_T9_pcapng(tree: Tree) -> RuleResult:
         r.ob(ok_all, Finding("T9p", f"dpkt_dsb:{f.qualname}:block-consumption",
                              f"{f.qualname}: every block must be consumed (`read(blk_len - 8)` after the 8-byte header) before its type is "
                              f"inspected, so that unknown blocks are skipped without effect", m.line(f.node)))
+    # nothing but end-of-file leaves the packet loop: no break / return / raise under a block-type test
+    r.instances += 1
+    cfgi = cfg_of(it.node)
+    bad = []
+    for n in cfgi.nodes:
+        if n.kind == "stmt" and isinstance(n.ast, (ast.Break, ast.Return, ast.Raise)) and n.loops:
+            facts = [(src(e), t) for e, t in cfgi.facts_at(n.id)]
+            if not any(s == "len(buf) < 8" and t for s, t in facts):
+                bad.append(f"`{src(n.ast)}` under {[s for s, t in facts if t][:2]}")
+    r.ob(not bad, Finding("T9p", "dpkt_dsb:Reader.__iter__:only-eof-ends",
+                          f"the block loop may only end at end of file (`len(buf) < 8`); found {bad}: blocks after an interspersed non-packet block (statistics, name resolution, custom) would be dropped", m.line(it.node)))
     # DSB marker: the reader yields ts = -1 for DSB payloads; run() tests ts == -1
     r.instances += 1
     marker = None
